@@ -16,7 +16,9 @@ def sh(cmd, **kw):
 
 def main():
     pid, x, pkg, needs = sys.argv[1:5]
-    src = f"/tmp/seed/{pid}/_seed/{x}"
+    root = os.environ.get("SEED_ROOT", "/tmp/seed")
+    tag = os.environ.get("SEED_TAG", "")
+    src = f"{root}/{pid}/_seed/{x}"
     env = dict(os.environ, GOFLAGS="-mod=mod", GOPROXY="off", GOSUMDB="off", GOTOOLCHAIN="local")
     demos = [f for f in os.listdir(src) if f.endswith("_test.go") or f == "main.go" or f.endswith(".go")]
     if not demos:
@@ -68,7 +70,7 @@ def main():
     finally:
         sh(f"git -C /repo worktree remove --force {WT}; rm -rf {WT}")
     if ok:
-        out = os.path.join(V, "seeded", f"{pid}-{x}")
+        out = os.path.join(V, "seeded", f"{pid}-{tag}{x}")
         os.makedirs(out, exist_ok=True)
         shutil.copy(os.path.join(src, "patch.diff"), out)
         for d in demos:
